@@ -48,6 +48,7 @@ type universe struct {
 	MetaSCs [][]byte // metachain system-contract-shaped addresses other than the ESDT system contract (staking, delegation manager, ...)
 	SysVar  []byte   // 0xff*31 || 0x01: passes IsSystemAccountAddress (30-byte prefix) but is not the canonical system account
 	HiTok   []byte   // an SFT identifier whose nonces run past 256 (nonces whose big-endian form ends in a zero byte)
+	earlyGas []map[string]map[string]uint64 // handed to the next stdWorld (see hWorld.earlyGas)
 	rich    bool     // set by populateRich: the generators then also draw from the rich pools
 	onStep  func(sr *stepResult) // called after every set-up step of populateRich (runners that keep their own view of the history)
 }
@@ -115,6 +116,7 @@ func (u *universe) stdWorld(nShards int, sysShard uint32, gas map[string]map[str
 	w.dns = [][]byte{u.DNS}
 	w.payTab[string(u.K[0])] = 'Y'
 	w.payTab[string(u.K[1])] = 'Y'
+	w.earlyGas = u.earlyGas
 	if err := w.build(); err != nil {
 		panic(err)
 	}
@@ -507,6 +509,99 @@ func richTour(u *universe, w *hWorld) []func() *worldOp {
 			tweak(tx(u.U[0], u.U[0], "ESDTNFTTransfer", u.NFTs[1], be(1), be(1), kn), setCT),
 			tweak(tx(u.U[0], u.U[0], "MultiESDTNFTTransfer", tkMulti(kn, u.Fung[0], nil, be(1), u.NFTs[1], be(1), be(1))...), setCT),
 			tweak(tx(u.U[0], u.U[0], "ESDTNFTTransfer", u.NFTs[1], be(1), be(1), u.K[1]), setCT),
+		)
+	}
+	// ---- round 6 ----
+	// (m) arrivals and sender-side calls of every CALL TYPE (a contract's callback or asynchronous call moves tokens too) while the token is
+	//     paused on the executing shard, then while the destination's entry is frozen: every one must be refused like a direct call
+	cts := []vmcommon.CallType{vmcommon.AsynchronousCallBack, vmcommon.AsynchronousCall, vmcommon.ESDTTransferAndExecute}
+	nftIn := validNFTPayload(1, 1, u.U[0])
+	blockedSteps := func() []func() *worldOp {
+		var b []func() *worldOp
+		for _, ct := range cts {
+			ct := ct
+			setCT := func(cs *callSpec) { cs.CallType = ct }
+			b = append(b,
+				tweak(arrival(u.U[2], u.U[1], "ESDTNFTTransfer", u.NFTs[1], be(1), be(1), nftIn), setCT),
+				tweak(arrival(u.U[2], u.U[1], "MultiESDTNFTTransfer", be(2), u.NFTs[1], be(1), nftIn, u.Fung[2], []byte{0}, be(2)), setCT),
+				tweak(arrival(u.U[2], u.U[1], "ESDTTransfer", u.Fung[2], be(2)), setCT),
+				tweak(arrival(u.U[2], u.K[0], "ESDTTransfer", u.Fung[2], be(2), []byte("fn"), []byte("a")), setCT),
+				tweak(tx(u.U[0], u.U[0], "ESDTNFTTransfer", u.NFTs[1], be(1), be(1), u.U[1]), setCT),
+				tweak(tx(u.U[0], u.U[1], "ESDTTransfer", u.Fung[2], be(1)), setCT),
+				tweak(tx(u.U[0], u.U[0], "MultiESDTNFTTransfer", tkMulti(u.U[1], u.NFTs[1], be(1), be(1), u.Fung[2], nil, be(1))...), setCT),
+			)
+		}
+		return b
+	}
+	l = append(l, sysAs(u.SC, u.U[1], u.SYS, "ESDTPause", u.Fung[2]), sysAs(u.SC, u.U[1], u.SYS, "ESDTPause", u.NFTs[1]))
+	l = append(l, blockedSteps()...)
+	l = append(l, sysAs(u.SC, u.U[1], u.SYS, "ESDTUnPause", u.Fung[2]), sysAs(u.SC, u.U[1], u.SYS, "ESDTUnPause", u.NFTs[1]))
+	l = append(l, blockedSteps()...) // the same steps accepted: gas forwarded to an attached call under every call type (C06), messages of every call type
+	l = append(l, sysAs(u.SC, u.U[1], u.U[1], "ESDTFreeze", u.Fung[2]), sysAs(u.SC, u.U[1], u.U[1], "ESDTFreeze", append(append([]byte{}, u.NFTs[1]...), 1)))
+	l = append(l, blockedSteps()...)
+	// (n) refunds flagged return-after-error through the MULTI transfer onto the frozen holder (fungible and NFT entry): accepted, and the
+	//     flag must survive them - the ordinary transfers right after are still refused
+	l = append(l,
+		tweak(arrival(u.U[2], u.U[1], "MultiESDTNFTTransfer", be(1), u.Fung[2], []byte{0}, be(2)), raeCB),
+		tx(u.U[0], u.U[1], "ESDTTransfer", u.Fung[2], be(1)),
+		tx(u.U[1], u.U[0], "ESDTTransfer", u.Fung[2], be(1)),
+		tweak(arrival(u.U[2], u.U[1], "MultiESDTNFTTransfer", be(2), u.Fung[2], []byte{0}, be(1), u.NFTs[1], be(1), nftIn), raeCB),
+		tx(u.U[0], u.U[1], "ESDTTransfer", u.Fung[2], be(1)),
+		tweak(arrival(u.U[2], u.U[1], "ESDTNFTTransfer", u.NFTs[1], be(1), be(1), nftIn), raeCB),
+		tx(u.U[0], u.U[0], "ESDTNFTTransfer", u.NFTs[1], be(1), be(1), u.U[1]),
+		tx(u.U[1], u.U[1], "ESDTNFTTransfer", u.NFTs[1], be(1), be(1), u.U[0]),
+		sysAs(u.SC, u.U[1], u.U[1], "ESDTUnFreeze", u.Fung[2]),
+		sysAs(u.SC, u.U[1], u.U[1], "ESDTUnFreeze", append(append([]byte{}, u.NFTs[1]...), 1)),
+		tx(u.U[0], u.U[1], "ESDTTransfer", u.Fung[2], be(1)),
+	)
+	// (o) several tokens paused on one shard, one of them unpaused: the others stay paused; a first pause after a pause/unpause pair
+	l = append(l,
+		sysAs(u.SC, u.U[0], u.SYS, "ESDTPause", u.Fung[0]),
+		sysAs(u.SC, u.U[0], u.SYS, "ESDTPause", u.Fung[2]),
+		sysAs(u.SC, u.U[0], u.SYS, "ESDTUnPause", u.Fung[0]),
+		tx(u.U[0], u.U[1], "ESDTTransfer", u.Fung[2], be(1)), // still paused: refused
+		tx(u.U[0], u.U[1], "ESDTTransfer", u.Fung[0], be(1)),
+		sysAs(u.SC, u.U[0], u.SYS, "ESDTPause", u.Fung[1]),
+		tx(u.U[1], u.U[0], "ESDTTransfer", u.Fung[1], be(1)), // paused: refused
+		sysAs(u.SC, u.U[0], u.SYS, "ESDTUnPause", u.Fung[2]),
+		tx(u.U[1], u.U[0], "ESDTTransfer", u.Fung[1], be(1)), // still paused: refused
+		sysAs(u.SC, u.U[0], u.SYS, "ESDTUnPause", u.Fung[1]),
+		tx(u.U[1], u.U[0], "ESDTTransfer", u.Fung[1], be(1)),
+	)
+	// two tokens that were NEVER paused on this shard before (their flag entries are created by these calls), one unpaused again
+	l = append(l,
+		sysAs(u.SC, u.U[0], u.SYS, "ESDTPause", hi),
+		sysAs(u.SC, u.U[0], u.SYS, "ESDTPause", u.NFTs[0]),
+		sysAs(u.SC, u.U[0], u.SYS, "ESDTUnPause", hi),
+		tx(u.U[0], u.U[0], "ESDTNFTTransfer", u.NFTs[0], be(1), be(1), u.U[1]), // still paused: refused
+		tx(u.U[0], u.U[0], "ESDTNFTTransfer", hi, be(257), be(1), u.U[1]),
+		sysAs(u.SC, u.U[0], u.SYS, "ESDTPause", []byte("NEW-a1a1a1")),
+		sysAs(u.SC, u.U[0], u.SYS, "ESDTUnPause", u.NFTs[0]),
+		sysAs(u.SC, u.U[0], u.SYS, "ESDTUnPause", []byte("NEW-a1a1a1")),
+	)
+	// (p) an account sends to ITSELF (both accounts of the call are the same object): within the balance, above it, from a contract with
+	//     an attached call, while frozen
+	l = append(l,
+		tx(u.U[0], u.U[0], "ESDTTransfer", u.Fung[0], be(3)),
+		tx(u.U[0], u.U[0], "ESDTTransfer", u.Fung[0], new(big.Int).Lsh(big.NewInt(1), 200).Bytes()),
+		tx(u.K[0], u.K[0], "ESDTTransfer", u.Fung[0], new(big.Int).Lsh(big.NewInt(1), 200).Bytes(), []byte("fn")),
+		tx(u.K[0], u.K[0], "ESDTTransfer", u.Fung[0], be(1), []byte("fn")),
+		tx(fresh, fresh, "ESDTTransfer", u.Fung[1], be(1)),
+		sysAs(u.SC, u.U[0], u.U[0], "ESDTFreeze", u.Fung[0]),
+		tx(u.U[0], u.U[0], "ESDTTransfer", u.Fung[0], be(1)),
+		sysAs(u.SC, u.U[0], u.U[0], "ESDTUnFreeze", u.Fung[0]),
+	)
+	// (q) account-level and system-only functions arriving from another shard under every call type, by callers without the authority
+	for _, ct := range append([]vmcommon.CallType{vmcommon.DirectCall}, cts...) {
+		ct := ct
+		setCT := func(cs *callSpec) { cs.CallType = ct }
+		l = append(l,
+			tweak(arrival(u.U[2], userAddr(0x35), "SetUserName", []byte("mallory.elrond")), setCT), // an account without a name yet
+			tweak(arrival(u.U[2], u.U[1], "SetUserName", []byte("mallory.elrond")), setCT),
+			tweak(arrival(u.U[2], u.K[0], "ChangeOwnerAddress", u.U[2]), setCT),
+			tweak(arrival(u.U[2], u.K[0], "ClaimDeveloperRewards"), setCT),
+			tweak(arrival(u.U[2], u.U[1], "ESDTSetRole", u.Fung[0], []byte("ESDTRoleLocalMint")), setCT),
+			tweak(arrival(u.U[2], u.U[1], "ESDTFreeze", u.Fung[0]), setCT),
 		)
 	}
 	// a pause addressed to the non-canonical system-account address, a transfer of the token on that shard, the unpause
